@@ -22,6 +22,14 @@ CHECKS = {
         technique="property-based testing (proptest) against exact-rational sums, differences and ratios",
         text="Random search with shrinking over type x unit pair x amount pair in both back-ends; unit of the result, exact value within an absolute rounding budget (never relative to a cancelling result), bit-identity with the amount type's own operators for equal units.",
         design="4/C03"),
+    "C04": dict(
+        technique="property-based testing (proptest) over operator instances generated from the derivation tables, exact-rational product/quotient oracle, metamorphic form/commutation/round-trip relations",
+        text="Random search with shrinking over 52 operator instances (34 catalogue, 4 astronomical, 14 synthetic) x operand units x amounts x owned/borrowed forms in both back-ends; the declared result type is enforced by type ascription at compile time, the value by an exact rational oracle from the independent scale table.",
+        design="4/C04"),
+    "C05": dict(
+        technique="property-based testing (proptest) with solved operands that place the result on / beside every unit boundary; oracle restates the unit-selection rule over exact rationals",
+        text="Generator solves the second operand so that the exact result magnitude lands exactly on, one ulp beside, near and between the unit scales of the result type (and drives the best-fit step directly); the oracle is the statement itself evaluated in exact arithmetic, strict when every intermediate is exactly representable and tolerant by the rounding budget otherwise.",
+        design="4/C05"),
     "C07": dict(
         technique="exhaustive enumeration against an independently written definition table (exact rationals)",
         text="Every unit of every predefined quantity (112 main-crate units in both back-ends, 27 astronomical units in f64) is compared with the definition table; the space is finite and fully enumerated on every run.",
